@@ -424,3 +424,225 @@ func RBmDir(c *core.Ctx) {
 		c.OK("newBmPrefix / every walk over the pattern follows the search direction", fd.Pos(), "%d index variables, %d direction-relative updates, no constant step", len(idxVars), ok)
 	}
 }
+
+// ---------------------------------------------------------------------------
+// R-RUNEBYTE: a rune goes into a byte buffer through the encoder.
+// byte(r) of a rune >= 0x80 is one byte of Latin-1, not UTF-8: written into a
+// buffer that is later read as a string it is an invalid sequence.  A
+// conversion rune -> byte is acceptable only under a dominating r < 0x80.
+// ---------------------------------------------------------------------------
+
+func RRuneByte(c *core.Ctx) {
+	c.Rule("R-RUNEBYTE", "in package syntax every conversion of a rune-typed value to a byte whose result is written to a buffer or appended to a []byte is dominated by a test that the rune is below 0x80 (utf8.RuneSelf): larger values need WriteRune / AppendRune", 1)
+	p := c.P
+	n, examined := 0, 0
+	for _, fn := range p.ModuleFuncs() {
+		if core.FnPkgPath(fn) != core.PkgSyntax {
+			continue
+		}
+		name := core.SSAName(fn)
+		for _, b := range fn.Blocks {
+			for _, ins := range b.Instrs {
+				cv, ok := ins.(*ssa.Convert)
+				if !ok {
+					continue
+				}
+				to, ok1 := cv.Type().Underlying().(*types.Basic)
+				from, ok2 := cv.X.Type().Underlying().(*types.Basic)
+				if !ok1 || !ok2 || to.Kind() != types.Uint8 || from.Kind() != types.Int32 {
+					continue
+				}
+				// used as an argument of a write / append
+				sink := false
+				for _, r := range core.Referrers(cv) {
+					if call, ok := r.(ssa.CallInstruction); ok {
+						if cal := call.Common().StaticCallee(); cal != nil && (cal.Name() == "WriteByte") {
+							sink = true
+						}
+						if bi, ok := call.Common().Value.(*ssa.Builtin); ok && bi.Name() == "append" {
+							sink = true
+						}
+					}
+				}
+				if !sink {
+					continue
+				}
+				examined++
+				ascii := false
+				for _, f := range core.FactsAtBlock(b) {
+					x, y, op, ok := core.CmpNorm(f)
+					if !ok || x != cv.X {
+						continue
+					}
+					if k, isC := core.IntConst(y); isC && ((op == token.LSS && k <= 128) || (op == token.LEQ && k <= 127)) {
+						ascii = true
+					}
+				}
+				n++
+				c.Visit(name)
+				c.Check(ascii, fmt.Sprintf("%s / byte(rune) written to a buffer #%d is ASCII", name, n), cv.Pos(),
+					"the rune is written as ONE byte without a dominating `< 0x80` test: for U+0080..U+00FF this is Latin-1, not UTF-8, and the resulting string is invalid (Unescape(Escape(\"10\\u00a0km\")) = \"10\\xa0km\")")
+			}
+		}
+	}
+	if n == 0 {
+		c.OK("syntax / no rune is written to a buffer as a single byte", token.NoPos, "no byte(rune) conversion feeds WriteByte / append in package syntax")
+	}
+}
+
+// ---------------------------------------------------------------------------
+// R-ERRFALLBACK: the lenient fallback applies to failures only.
+// Under ECMAScript a malformed \x / \u / \c escape is read as the literal
+// letter: scanCharEscape rewinds (p.textto(saved position)) and returns the
+// letter.  That path must be taken only when the strict decoding failed
+// (err != nil); taken unconditionally it discards every well-formed escape.
+// ---------------------------------------------------------------------------
+
+func RErrFallback(c *core.Ctx) {
+	c.Rule("R-ERRFALLBACK", "in scanCharEscape every rewind of the scanner to a saved position (p.textto(v) with v a local assigned from p.textpos()) happens only where the strict decoding is known to have failed (a dominating `err != nil`)", 1)
+	p := c.P
+	fn := p.SSAFunc(p.LookupFunc("syntax", "parser.scanCharEscape"))
+	textto := p.SSAFunc(p.LookupFunc("syntax", "parser.textto"))
+	textpos := p.SSAFunc(p.LookupFunc("syntax", "parser.textpos"))
+	if fn == nil || textto == nil || textpos == nil {
+		c.Anchor("parser.scanCharEscape / textto / textpos")
+		return
+	}
+	c.Visit(core.SSAName(fn))
+	n := 0
+	for _, b := range fn.Blocks {
+		for _, ins := range b.Instrs {
+			call, ok := ins.(*ssa.Call)
+			if !ok || call.Call.StaticCallee() != textto || len(call.Call.Args) < 2 {
+				continue
+			}
+			// argument comes from p.textpos()
+			saved := false
+			for _, l := range append(leaves(call.Call.Args[1]), call.Call.Args[1]) {
+				if c2, ok := l.(*ssa.Call); ok && c2.Call.StaticCallee() == textpos {
+					saved = true
+				}
+			}
+			if !saved {
+				continue
+			}
+			n++
+			failed := false
+			for _, f := range core.FactsAtBlock(b) {
+				bin, ok := f.Cond.(*ssa.BinOp)
+				if !ok {
+					continue
+				}
+				isErr := func(v ssa.Value) bool {
+					return v.Type().String() == "error"
+				}
+				if (bin.Op == token.NEQ && f.Val || bin.Op == token.EQL && !f.Val) && (isErr(bin.X) && core.IsNilConst(bin.Y) || isErr(bin.Y) && core.IsNilConst(bin.X)) {
+					failed = true
+				}
+			}
+			c.Check(failed, fmt.Sprintf("scanCharEscape / rewind #%d happens only after a failed decoding", n), call.Pos(),
+				"the scanner rewinds and returns the escape letter as a literal without a dominating `err != nil`: a well-formed \\xHH / \\uHHHH is then read as the letter followed by its digits (under ECMAScript, Escape(\"\\x1b[0m\") matches the text \"x1b[0m\")")
+		}
+	}
+	if n == 0 {
+		c.Anchor("rewinds to a saved position in scanCharEscape")
+	}
+}
+
+// ---------------------------------------------------------------------------
+// R-OPTCACHE: inline options are read where they are used.
+// (?x) / (?n) change p.options in the middle of a scan.  A value of
+// p.useOptionX() / useOptionN() … taken before a loop and used inside it keeps
+// the compile-time setting for the whole pattern, and the pre-scan then
+// disagrees with the main scan, which reads the option at every use.
+// ---------------------------------------------------------------------------
+
+func ROptCache(c *core.Ctx) {
+	c.Rule("R-OPTCACHE", "in the parser functions that call scanOptions / pushOptions / popOptions (so options can change while they run) no local variable assigned from a p.useOption…() call is used inside a loop that does not contain the assignment: option predicates are evaluated at each use", 2)
+	p := c.P
+	syn := p.Pkg("syntax")
+	info := syn.TypesInfo
+	changers := map[*types.Func]bool{}
+	for _, nm := range []string{"scanOptions", "pushOptions", "popOptions", "popKeepOptions"} {
+		if f := p.LookupFunc("syntax", "parser."+nm); f != nil {
+			changers[f] = true
+		}
+	}
+	n := 0
+	for _, fd := range p.FuncDecls(syn) {
+		if fd.Body == nil || fd.Recv == nil || p.IsTestFile(fd.Pos()) {
+			continue
+		}
+		changes := false
+		ast.Inspect(fd.Body, func(x ast.Node) bool {
+			if call, ok := x.(*ast.CallExpr); ok && changers[core.Callee(info, call)] {
+				changes = true
+			}
+			return true
+		})
+		if !changes {
+			continue
+		}
+		name := core.DeclName(syn, fd)
+		n++
+		c.Visit(name)
+		// cached predicates
+		type def struct {
+			obj types.Object
+			pos token.Pos
+		}
+		var defs []def
+		ast.Inspect(fd.Body, func(x ast.Node) bool {
+			as, ok := x.(*ast.AssignStmt)
+			if !ok || len(as.Lhs) != len(as.Rhs) {
+				return true
+			}
+			for i, r := range as.Rhs {
+				call, ok := ast.Unparen(r).(*ast.CallExpr)
+				if !ok {
+					continue
+				}
+				cal := core.Callee(info, call)
+				if cal == nil || len(cal.Name()) < 10 || cal.Name()[:9] != "useOption" {
+					continue
+				}
+				if id, ok := as.Lhs[i].(*ast.Ident); ok {
+					defs = append(defs, def{info.ObjectOf(id), as.Pos()})
+				}
+			}
+			return true
+		})
+		bad := ""
+		for _, d := range defs {
+			var loops []*ast.ForStmt
+			var stack []ast.Node
+			ast.Inspect(fd.Body, func(x ast.Node) bool {
+				if x == nil {
+					stack = stack[:len(stack)-1]
+					return true
+				}
+				stack = append(stack, x)
+				id, ok := x.(*ast.Ident)
+				if !ok || info.ObjectOf(id) != d.obj || id.Pos() == d.pos {
+					return true
+				}
+				for _, a := range stack {
+					if fs, ok := a.(*ast.ForStmt); ok && !(fs.Pos() <= d.pos && d.pos < fs.End()) {
+						loops = append(loops, fs)
+					}
+					if rs, ok := a.(*ast.RangeStmt); ok && !(rs.Pos() <= d.pos && d.pos < rs.End()) {
+						loops = append(loops, nil)
+					}
+				}
+				return true
+			})
+			if len(loops) > 0 {
+				bad = fmt.Sprintf("%s (assigned at %s from a useOption predicate) is used inside a loop that does not re-evaluate it", d.obj.Name(), p.Pos(d.pos))
+			}
+		}
+		c.Check(bad == "", name+" / option predicates are not cached across a loop", fd.Pos(), "%s: an inline (?x) / (?n) inside the pattern changes the option while this function runs, but the cached value keeps the setting the scan started with", bad)
+	}
+	if n == 0 {
+		c.Anchor("parser functions that change the option stack")
+	}
+}
